@@ -51,10 +51,10 @@ class Baton:
                         self.state['child'] = 'done'
                         self._maybe_choose()
                         continue
-                    if waited >= 20:
+                    if waited >= 6:
                         self.deadlock = True
                         self.cv.notify_all()
-                        raise SimDeadlock('actor %s waited 20 s for the other actor to reach a sync point' % me)
+                        raise SimDeadlock('actor %s waited 6 s for the other actor to reach a sync point' % me)
             self.turn = None
             self.state[me] = 'running'
             del self.pending[me]
